@@ -505,11 +505,25 @@ func init() {
 				if f == nil {
 					continue
 				}
-				var sites []*ast.SliceExpr
+				// a site is path[low:] or strings.TrimPrefix(path, "vendor/") (which cuts 7 exactly when the prefix is there)
+				type site struct {
+					at   ast.Expr
+					low  ast.Expr // nil for TrimPrefix
+					trim bool
+				}
+				var sites []site
 				f.inspect(f.Decl.Body, func(nd ast.Node) bool {
-					se, ok := nd.(*ast.SliceExpr)
-					if ok && isString(f.Info.TypeOf(se.X)) && se.High == nil && se.Low != nil && isPathParam(f, se.X) {
-						sites = append(sites, se)
+					switch x := nd.(type) {
+					case *ast.SliceExpr:
+						if isString(f.Info.TypeOf(x.X)) && x.High == nil && x.Low != nil && isPathParam(f, x.X) {
+							sites = append(sites, site{at: x, low: x.Low})
+						}
+					case *ast.CallExpr:
+						if f.calleeName(x) == "strings.TrimPrefix" && len(x.Args) == 2 && isPathParam(f, x.Args[0]) {
+							if tv, ok := f.Info.Types[ast.Unparen(x.Args[1])]; ok && tv.Value != nil && tv.Value.ExactString() == `"vendor/"` {
+								sites = append(sites, site{at: x, trim: true})
+							}
+						}
 					}
 					return true
 				})
@@ -521,9 +535,9 @@ func init() {
 					for _, h := range []bool{false, true} {
 						env := vendorEnv{f: f, j: j, h: h}
 						cut, fired := -1, 0
-						for _, se := range sites {
+						for _, st := range sites {
 							strip := true
-							for _, g := range f.Guards(se) {
+							for _, g := range f.Guards(st.at) {
 								if !env.concerns(g.Expr) {
 									continue // e.g. the own-package early return
 								}
@@ -542,9 +556,16 @@ func init() {
 								}
 								strip = strip && v
 							}
+							if strip && st.trim {
+								if h {
+									fired++
+									cut = len("vendor/")
+								}
+								continue
+							}
 							if strip {
 								fired++
-								if lo, ok := env.evalInt(se.Low); ok {
+								if lo, ok := env.evalInt(st.low); ok {
 									cut = lo
 								} else {
 									okT = false
@@ -566,7 +587,7 @@ func init() {
 				}
 				pos := f.Decl.Pos()
 				if len(sites) > 0 {
-					pos = sites[0].Pos()
+					pos = sites[0].at.Pos()
 				}
 				r.Check(okT, f.Name+"/vendor-strip-at-last-vendor-element", pos, "everything up to the last path ELEMENT named vendor is removed (\"/vendor/\" anywhere, or a leading \"vendor/\"), nothing otherwise — decision table: %s", strings.Join(rows, "; "))
 			}
